@@ -121,7 +121,7 @@ def mes_table(ctx):
     return _emit(d)
 
 
-@rule("PRECOND-CHECK", ["C08", "C01", "C20", "C05", "C16", "C06", "C13"], floor=4)
+@rule("PRECOND-CHECK", ["C08", "C01", "C20", "C05", "C16", "C06", "C13", "C12", "C02"], floor=4)
 def precond_check(ctx):
     """check_preconditions: a precondition with a fixed position must match exactly there; one without must match at
     some position from max(start, min_position) to the end of input; any failure answers false, all satisfied true."""
@@ -227,7 +227,7 @@ def precond_check(ctx):
     return _emit(d)
 
 
-@rule("PARSE-ATOM", ["C07", "C20"], floor=6)
+@rule("PARSE-ATOM", ["C07", "C20", "C01"], floor=6)
 def parse_atom(ctx):
     """parse_atom: characters are appended to the literal until a terminator ] . [ ( ) | or a quantifier; a character
     directly followed by a quantifier ends the atom *before* it when the atom is non-empty (the quantifier binds to
@@ -302,7 +302,7 @@ def parse_atom(ctx):
     return _emit(d)
 
 
-@rule("PARSE-BRANCH", ["C07", "C20", "C02"], floor=3)
+@rule("PARSE-BRANCH", ["C07", "C20", "C02", "C01"], floor=3)
 def parse_branch(ctx):
     """parse_branch: pieces are parsed while the next character is neither '|' nor ')' and concatenated left to
     right (make_sequence(current, piece)); an empty branch is Nothing."""
@@ -373,8 +373,14 @@ def seq_optimize_arms(ctx):
                 turn_ok = len(pu) == 1 and pu[0][0] == "push" and re.match(r"^Vec::(with_capacity\(.*\)|new\(\))$", pu[0][1][0]) and bool(drv) and not any(c[0] in ("rev", "reverse", "swap", "sort", "sort_by") for c in calls)
                 _rec(d, "many", bool(turn_ok), "in a turn of the loop that rebuilds a longer sequence exactly one operation must be appended, walking a1.operations forwards; calls %s" % [c[0] for c in calls][:8], loc)
                 continue
-            if not good and p.end == "return" and re.match(r"^op\(Sequence::Sequence\{operations: Vec::(with_capacity\(.*\)|new\(\))\}\)$", r) and any(re.match(r"^variant\(.*next\(.*a1\.operations.*\)\)=None$", g) for g in gs):
-                _rec(d, "many", True, "", loc)  # the vector filled by the turns above, returned when the walk is exhausted
+            if not good and p.end == "return" and re.match(r"^op\(Sequence::Sequence\{operations: Vec::(with_capacity\(.*\)|new\(\))\}\)$", r):
+                # the vector filled by the turns above, returned when the walk is exhausted - or in the turn of the
+                # last element (nothing follows it), which appends that element first
+                calls = [(e[1].split("::")[-1], [_sh(strip_ver(render(x))) for x in e[2]]) for e in p.effects if e[0] == "call"]
+                pu = [c for c in calls if c[0] in ("push", "insert", "extend", "push_front", "append")]
+                delivered = [g for g in gs if re.match(r"^variant\((?:<[^()]*> as Iterator>::)?next\(.*a1\.operations.*\)\)=Some$", g)]
+                exhausted = any(re.match(r"^variant\(.*(?:next|peek)\(.*a1\.operations.*\)\)=None$", g) for g in gs)
+                _rec(d, "many", exhausted and len(pu) == len(delivered) <= 1 and all(c[0] == "push" for c in pu), "the rebuilt sequence is returned before the walk over a1.operations is exhausted, or an element is not appended exactly once (appends %d, delivered %d)" % (len(pu), len(delivered)), loc)
                 continue
             _rec(d, "many", good, "a longer sequence must be rebuilt from its operations in order; found %s" % r[:140], loc)
     for k in ("empty", "single", "many"):
